@@ -10,6 +10,8 @@ mod dbrun;
 mod failrun;
 mod dbsmall;
 mod gen_types;
+mod gen_user_types;
+mod usertypes;
 mod rng;
 mod sexp;
 #[cfg(agdb_verif)]
@@ -136,6 +138,17 @@ fn main() {
             concrun::run_stress(&mut br, &out, arg(&args, "--dbs", "6").parse().unwrap(), n, arg(&args, "--threads", "32").parse().unwrap(), &mut o);
             write_lines(&format!("{}/oracle.txt", out), &o.oracle);
             write_stats(&format!("{}/stats.json", out), &o.stats, o.evaluations, o.nontrivial, &o.samples);
+        }
+        "c22" => {
+            use gen_user_types::*;
+            let mut c = usertypes::Ctx { rng: rng::Rng::new(seed), n, dir: out.clone(), cases: vec![], imp: vec![], oracle: vec![],
+                                         stats: BTreeMap::new(), samples: vec![], nontrivial: 0, evaluations: 0 };
+            fn go<T: usertypes::Ut + agdb::DbType<ValueType = T>>(c: &mut usertypes::Ctx) { usertypes::run_type::<T>(c) }
+            for_each_user_type!(go, &mut c);
+            write_lines(&format!("{}/cases.txt", out), &c.cases);
+            write_lines(&format!("{}/impl.txt", out), &c.imp);
+            write_lines(&format!("{}/oracle.txt", out), &c.oracle);
+            write_stats(&format!("{}/stats.json", out), &c.stats, c.evaluations, c.nontrivial, &c.samples);
         }
         "fail" => {
             let mut o = failrun::Out { live: Some(std::fs::OpenOptions::new().create(true).append(true).open(format!("{}/oracle_live.txt", out)).unwrap()), oracle: vec![], stats: BTreeMap::new(), samples: vec![], nontrivial: 0, runs: 0 };
